@@ -109,8 +109,6 @@ def in_slice(scn):
     for v in scn.get("apps", {}).values():
         if set(v) - {"chunks", "cl", "write", "raise_at", "raise"} or v.get("cl", "exact") not in ("exact", "none", "larger") or "sync" in v.get("chunks", []) or "peer" in v.get("chunks", []):
             return False
-    if c[0].get("faults") and any(r.get("kind") == "expect" for r in reqs):
-        return False      # an error inside send_continue's flush leaves received()/service(): not modelled
     return all(a[0] in ("connect", "send", "read", "readall", "readall_after_block", "read_after_block", "await100", "close") for a in c[0]["client"])
 
 
